@@ -3,7 +3,15 @@
 (*  Law           one observation of the codec on one (mutated) input; must  *)
 (*                be the next cell x repetition of the plan (keys strictly   *)
 (*                increasing, |PlanCells| * Reps lines in total = the plan   *)
-(*                is covered exactly), and must satisfy every law            *)
+(*                is covered exactly), and must satisfy every law.  For the  *)
+(*                value-boundary operators val-int, -bytes, -len the line    *)
+(*                also carries the                                           *)
+(*                field that was set (fld, gotype, w, fi of nf): the field   *)
+(*                must be the one the repetition selects (FieldOf), "not     *)
+(*                applicable" is only accepted where the value has no such   *)
+(*                field or the class does not exist for its width (Fits),    *)
+(*                and ValueLaw decides the round trip (deviation             *)
+(*                value-roundtrip)                                           *)
 (*  Dispatch      ReadMessage answered `res` for every type in lo..hi (the   *)
 (*                ranges must tile 0..65535); FailDispatch likewise          *)
 (*  Write         WriteMessage of a plen-byte payload onto pre bytes         *)
@@ -33,10 +41,15 @@ LawDevs(o) ==
         /\ o.pos \in {Poss[i] : i \in 1..Len(Poss)}) THEN {"not-a-cell"}
    ELSE IF ~InPlan(c) \/ o.rep \notin 1..Reps THEN {"not-in-plan"}
    ELSE IF ~KeyLess(prev, Key(c, o.rep)) THEN {"plan-order"} ELSE {})
+  \cup (IF o.op \in ValOps /\ o.nf > 0 /\ o.fi # FieldOf(o.rep, o.nf) THEN {"field-plan"} ELSE {})
   \cup (IF o.na = 1
-          THEN (IF o.op \in {"len-1", "len+1", "len-max", "ext-odd", "var-bound"} \/ o.vlen <= 2 \/ o.vlen > MaxMsg - 5
-                  THEN {} ELSE {"unexpected-na"})
+          THEN (IF o.op \in ValOps
+                  THEN (IF o.nf = 0 \/ ~Fits(o.op, o.pos, o.w) THEN {} ELSE {"unexpected-na"})
+                  ELSE IF o.op \in {"len-1", "len+1", "len-max", "ext-odd", "var-bound"} \/ o.vlen <= 2 \/ o.vlen > MaxMsg - 5
+                         THEN {} ELSE {"unexpected-na"})
           ELSE (IF o.ilen <= MaxMsg THEN {} ELSE {"input-outside-domain"})
+               \cup (IF o.op \in ValOps /\ (o.nf = 0 \/ ~Fits(o.op, o.pos, o.w)) THEN {"field-plan"} ELSE {})
+               \cup (IF ValueLaw(o) THEN {} ELSE {"value-roundtrip"})
                \cup (IF Totality(o) THEN {} ELSE {IF o.pan = 1 THEN "panic" ELSE IF o.hang = 1 THEN "hang" ELSE "alloc"})
                \cup (IF Bound(o) THEN {} ELSE {"bound"})
                \cup (IF Fixpoint(o) THEN {} ELSE {"fixpoint"})
